@@ -324,6 +324,33 @@ def _cx(run, ci):
     from ._charged import charged_sum
     charged_sum(run, 'C05-R1', ci, fn, True, 'ms_to_evamu')
     _fresh_per_iteration(run, ci, _m(ci, '_populate_cache'))
+    _ground_state_selected(run, ci, _m(ci, '_populate_cache'))
+
+
+def _ground_state_selected(run, ci, fn):
+    """The weight-one coefficient q_1 is the rate of the ground donor state: selected by donor_metastable == 1, not by its position in the
+    list the provider returns (providers may list the states in any order)."""
+    run.describe('C05-R7', 'the ground-state coefficient (weight 1) is the rate whose donor_metastable is 1; the others get population weights')
+    K = '%s|%s|_populate_cache|ground' % (ci.mod.name, ci.name)
+    sts = [st for st in ast.walk(fn) if isinstance(st, ast.Assign) and any(norm(t) == 'self._ground_beam_rate' for t in st.targets)]
+    run.subject('C05-R7')
+    if not sts:
+        run.undecided('C05-R7', 'BeamCXLine._populate_cache', 'no assignment of the ground-state rate')
+        return
+    for st in sts:
+        v = st.value
+        f = facts(guards_of(fn, st) or [])
+        if isinstance(v, ast.Name) and ((v.id + '.donor_metastable', '==', '1') in f):
+            run.ok('C05-R7', 'ground state', '%s.donor_metastable == 1' % v.id)
+        elif isinstance(v, ast.Subscript) and isinstance(v.slice, ast.Constant):
+            run.fail('C05-R7', K, ci.mod.relpath, st.lineno,
+                     'the ground-state coefficient is taken as %s, by position: when the provider lists an excited donor state first, that state '
+                     'gets weight 1 and the ground state a population weight, so q is not the population-weighted mean' % norm(v))
+        elif isinstance(v, ast.Name) and not any(a[0].endswith('.donor_metastable') for a in f):
+            run.fail('C05-R7', K, ci.mod.relpath, st.lineno,
+                     'the ground-state coefficient is assigned (%s) without testing donor_metastable == 1' % norm(st)[:60])
+        else:
+            run.undecided('C05-R7', 'ground state', 'selection %s under %s' % (norm(v)[:30], sorted(f)[:2]))
 
 
 def _fresh_per_iteration(run, ci, fn):
